@@ -50,7 +50,8 @@ theorem step_fst (H : String → Hash) (s : Storage) (r : Req) :
     | other => left; simp [step, hext, hv]
     | one =>
       by_cases hq : r.query = ""
-      · left; simp [step, hext, hv, hq, lookup_fst]
+      · left
+        cases hd : r.hasDoc <;> simp [step, hext, hv, hq, hd, lookup_fst]
       · right
         have hq' : (r.query == "") = false := by simpa using hq
         simp [step, hext, hv, hq', register, hq]
